@@ -159,3 +159,105 @@ def closed_path_stays_exactly_closed(c, kinds, op):
         j = (i + 1) % n
         c.ensures('joint-%d->%d-coincides-exactly%s' % (i, j, '(closing)' if j == 0 else ''),
                   c.exact_eq(c.get(rs[i], 'end'), c.get(rs[j], 'start')))
+
+
+# ------------------------------------------------------------------------------------ arcs
+# The Arc branches of translate / rotate / scale build a NEW Arc from transformed endpoint
+# parameters; the constructor re-parameterises from scratch (C04).  What is proved here is the
+# call-site contract: the constructor receives exactly the endpoint parameters of the image arc
+#   translation by z:        (start+z, (rx,ry), phi,       fA, fS, end+z)
+#   rotation by a about o:   (R(start), (rx,ry), phi + a,  fA, fS, R(end)),   R(p) = w(p-o)+o
+#   uniform scale s about o: (S(start), s*(rx,ry), phi,    fA, fS, S(end)),   S(p) = s(p-o)+o
+# (a negative s is a half turn: the constructor drops the sign of the radii, C04).  That the
+# image of an elliptical arc under these maps is the arc with these endpoint parameters is the
+# SVG implementation note F.6 (assumed mathematics); with C04 it gives the statement.  The
+# bounded stand-ins in arcs_bounded.py check the statement itself on floats.
+
+def _arc_ctor_spy(c):
+    calls = []
+
+    def init(ip, f, args, kwargs):
+        names = ['self', 'start', 'radius', 'rotation', 'large_arc', 'sweep', 'end', 'autoscale_radius']
+        got = dict(zip(names, args))
+        got.update(kwargs)
+        calls.append(got)
+        for k, v in got.items():
+            if k != 'self':
+                c.set(got['self'], k, v)
+        return None
+    c.ip.summaries['path.Arc.__init__'] = init
+    return calls
+
+
+@contract('C10', 'path.translate', params=[{'_no_bounded': True}])
+def arc_translate_passes_the_translated_endpoint_parameters(c):
+    from contracts.c04 import arc_state
+    arc, p = arc_state(c)
+    calls = _arc_ctor_spy(c)
+    z = c.cplx('z')
+    r = c.callm(arc, 'translated', z)
+    c.ensures('one-Arc-is-built', len(calls) == 1 and c.isinstance(r, 'path.Arc'))
+    g = calls[0]
+    c.ensures('end-points-translated', ops.And(ops.eq(g['start'], p['start'] + z), ops.eq(g['end'], p['end'] + z)))
+    c.ensures('radii-rotation-flags-unchanged', ops.And(ops.eq(g['radius'], ops.cx(p['rx'], p['ry'])), ops.eq(g['rotation'], p['rot']),
+                                                        g['large_arc'] is c.get(arc, 'large_arc'), g['sweep'] is c.get(arc, 'sweep')))
+    c.ensures('radii-may-still-be-enlarged', g.get('autoscale_radius', True) is True)
+
+
+@contract('C10', 'path.rotate', params=[{'origin': o, '_no_bounded': True} for o in ('given', 'zero', 'default')])
+def arc_rotate_passes_the_rotated_endpoint_parameters(c, origin):
+    from contracts.c04 import arc_state
+    arc, p = arc_state(c)
+    calls = _arc_ctor_spy(c)
+    degs = c.real('degs')
+    co, si = c.cos_sin_deg(degs)
+    w = ops.cx(co, si)
+    if origin == 'given':
+        o = c.cplx('o')
+        r = c.callm(arc, 'rotated', degs, o)
+    elif origin == 'zero':
+        o = 0
+        r = c.callm(arc, 'rotated', degs, 0)
+    else:
+        o = p['center']                     # documented default for an Arc: its centre
+        r = c.callm(arc, 'rotated', degs)
+    c.ensures('one-Arc-is-built', len(calls) == 1 and c.isinstance(r, 'path.Arc'))
+    g = calls[0]
+    c.ensures('end-points-rotated-about-the-origin', ops.And(ops.eq(g['start'], w * (p['start'] - o) + o), ops.eq(g['end'], w * (p['end'] - o) + o)))
+    c.ensures('rotation-increased-by-degs', ops.eq(g['rotation'], p['rot'] + degs))
+    c.ensures('radii-and-flags-unchanged', ops.And(ops.eq(g['radius'], ops.cx(p['rx'], p['ry'])),
+                                                   g['large_arc'] is c.get(arc, 'large_arc'), g['sweep'] is c.get(arc, 'sweep')))
+
+
+@contract('C10', 'path.scale', params=[{'form': f, '_no_bounded': True} for f in ('sx', 'sx,sx', 'sx,origin')])
+def arc_uniform_scale_passes_the_scaled_endpoint_parameters(c, form):
+    from contracts.c04 import arc_state
+    arc, p = arc_state(c)
+    calls = _arc_ctor_spy(c)
+    s = c.real('s')
+    c.assume(ops.ne(s, 0))
+    if form == 'sx':
+        o = 0
+        r = c.callm(arc, 'scaled', s)
+    elif form == 'sx,sx':
+        o = 0
+        r = c.callm(arc, 'scaled', s, s)
+    else:
+        o = c.cplx('o')
+        r = c.callm(arc, 'scaled', s, origin=o)
+    c.ensures('one-Arc-is-built', len(calls) == 1 and c.isinstance(r, 'path.Arc'))
+    g = calls[0]
+    c.ensures('end-points-scaled-about-the-origin', ops.And(ops.eq(g['start'], s * (p['start'] - o) + o), ops.eq(g['end'], s * (p['end'] - o) + o)))
+    c.ensures('radii-scaled', ops.eq(g['radius'], ops.cx(s * p['rx'], s * p['ry'])))
+    c.ensures('rotation-and-flags-unchanged', ops.And(ops.eq(g['rotation'], p['rot']), g['large_arc'] is c.get(arc, 'large_arc'), g['sweep'] is c.get(arc, 'sweep')))
+
+
+@contract('C10', 'path.scale', params=[{'_no_bounded': True}])
+def arc_non_uniform_scale_is_refused(c):
+    from contracts.c04 import arc_state
+    arc, p = arc_state(c)
+    calls = _arc_ctor_spy(c)
+    sx, sy = c.real('sx'), c.real('sy')
+    c.assume(ops.ne(sx, sy))
+    out = c.outcome(lambda: c.callm(arc, 'scaled', sx, sy))
+    c.ensures('raises-and-builds-nothing', out.kind == 'raise' and len(calls) == 0)
